@@ -13,6 +13,6 @@ Init == i \in 1..Len(Obs)
 Next == UNCHANGED i
 Spec == Init /\ [][Next]_i
 
-Report(o) == PrintT(<<"NONCONF", i, Diag(o)>>)
+Report(o) == PrintT(ToJson(<<"NONCONF", i, Diag(o)>>))
 ConformsInv == Conforms(Obs[i]) \/ (~Strict /\ Report(Obs[i]))
 =============================================================================
